@@ -40,9 +40,13 @@ def check_cache(
     # parameter order, so a rename that swaps two inputs changes it), and two
     # gates in their targets, fallback or multi_target mode (the cached routing
     # decision is a target name that already has the fallback applied).
+    # Nor do the output names alone: ("a", "b") may be two data outputs or a
+    # data output plus an emit signal (node.outputs lists both kinds), and an
+    # InterruptNode treats what its function returns differently from a
+    # FunctionNode built from the same function (None means "pause").
     identity = (
-        f"{node.definition_hash}:{node.inputs!r}:{node.outputs!r}:{getattr(node, 'targets', None)!r}"
-        f":{getattr(node, 'fallback', None)!r}:{getattr(node, 'multi_target', None)!r}"
+        f"{type(node).__name__}:{node.definition_hash}:{node.inputs!r}:{node.outputs!r}:{getattr(node, 'data_outputs', None)!r}"
+        f":{getattr(node, 'targets', None)!r}:{getattr(node, 'fallback', None)!r}:{getattr(node, 'multi_target', None)!r}"
     )
     cache_key = compute_cache_key(identity, inputs)
     if not cache_key:
